@@ -280,6 +280,10 @@ func ruleC16Progress(c *Ctx) {
 				if n, ok := constInt(cmp.Y); ok && n == 0 {
 					okHN = true
 				}
+				// cursor != ""
+				if s, ok := constStr(cmp.Y); ok && s == "" && cmp.Op == token.NEQ {
+					okHN = true
+				}
 			}
 		}
 		if okHN {
@@ -370,11 +374,19 @@ func ruleC16Grammar(c *Ctx) {
 			case *ssa.Slice:
 				if x.High != nil {
 					if k, ok := constInt(x.High); ok {
-						if lo, ok := constInt(x.Low); ok && lo == 0 {
+						lo, isK := int64(0), true
+						if x.Low != nil {
+							lo, isK = constInt(x.Low)
+						}
+						if isK && lo == 0 {
 							nCopy++
 							note("copy-bound", k)
 						}
 					}
+				} else if n, isArr := staticLen(x.X.Type()); isArr && x.Low == nil {
+					// the whole array `v[:]`
+					nCopy++
+					note("copy-bound", n)
 				} else if x.Low != nil {
 					if k, ok := constInt(x.Low); ok && isStringish(x.Type()) {
 						nAdv++
